@@ -266,6 +266,8 @@ func runC08(c *core.Ctx) error {
 		checkConvertWiring(c, prog, r2, convert)
 	}
 	checkNonFatal(c, pkg, r2)
+	checkSingleDigitEscape(c, prog, r2)
+	checkSpecialClassesFirst(c, prog, r2)
 
 	// ---- R08.4
 	r4 := c.NewRule("R08.4", "S1", "hex escapes are zero-padded exactly below the radix (\\x0H for value < 16, \\xHH otherwise)", 1)
@@ -715,5 +717,164 @@ func checkHexPadding(c *core.Ctx, prog *core.Prog, r *core.Rule) {
 	}
 	if n == 0 {
 		r.Undecided("hex-padding", "-", "no padded strconv.AppendInt(_, v, 16) found in package ogenregex")
+	}
+}
+
+
+// checkSingleDigitEscape: ECMA-262 reads \N (one decimal digit, N ≥ 1) as a
+// back-reference whenever the pattern has at least N groups anywhere, also
+// after the reference; a single left-to-right pass cannot know that number, so
+// the converter has to hand every such escape to the backtracking engine. In
+// scanEscape the region entered when exactly one digit was read (size == 1)
+// may branch only on whether the value is zero, must end in a return on every
+// path, and its non-zero side must record the non-fatal error.
+func checkSingleDigitEscape(c *core.Ctx, prog *core.Prog, r *core.Rule) {
+	fn := prog.Func(pkgRegex, "parser.scanEscape")
+	if fn == nil {
+		r.Undecided("anchor:scanEscape", "-", "ogenregex.(*parser).scanEscape not found")
+		return
+	}
+	var region *ssa.BasicBlock
+	for _, b := range fn.Blocks {
+		iff, ok := b.Instrs[len(b.Instrs)-1].(*ssa.If)
+		if !ok {
+			continue
+		}
+		bo, ok := iff.Cond.(*ssa.BinOp)
+		if !ok || bo.Op != token.EQL {
+			continue
+		}
+		k, isK := bo.Y.(*ssa.Const)
+		phi, isPhi := bo.X.(*ssa.Phi)
+		if isK && isPhi && k.Value != nil && k.Int64() == 1 && phi.Comment == "size" {
+			region = b.Succs[0]
+		}
+	}
+	if region == nil {
+		r.Undecided("single-digit:shape", c.Pos(fn.Pos()), "no `size == 1` test found in scanEscape: the handling of \\1…\\7 cannot be located")
+		return
+	}
+	okAll := true
+	sawError := false
+	for _, b := range fn.Blocks {
+		if !(b == region || region.Dominates(b)) {
+			continue
+		}
+		for _, in := range b.Instrs {
+			if call, ok := in.(ssa.CallInstruction); ok && strings.HasSuffix(core.CalleeName(call.Common()), "parser).error") {
+				if len(call.Common().Args) > 1 {
+					if k, ok := call.Common().Args[1].(*ssa.Const); ok && k.Value != nil && !constant.BoolVal(k.Value) {
+						sawError = true
+					}
+				}
+			}
+		}
+		switch t := b.Instrs[len(b.Instrs)-1].(type) {
+		case *ssa.Return:
+		case *ssa.If:
+			bo, ok := t.Cond.(*ssa.BinOp)
+			valueVsZero := false
+			if ok && (bo.Op == token.NEQ || bo.Op == token.EQL) {
+				if k, isK := bo.Y.(*ssa.Const); isK && k.Value != nil && k.Int64() == 0 {
+					if phi, isPhi := bo.X.(*ssa.Phi); isPhi && phi.Comment == "value" {
+						valueVsZero = true
+					}
+				}
+			}
+			if !valueVsZero {
+				okAll = false
+				r.Fail("single-digit:extra-condition", c.Pos(t.Cond.Pos()), "whether \\N (one digit) is treated as a back-reference depends on more than N != 0: a reference that precedes its group (\\1(a)) is rewritten as a character code and run on the linear engine with different semantics")
+			}
+			for _, s := range b.Succs {
+				if !(s == region || region.Dominates(s)) {
+					okAll = false
+					r.Fail("single-digit:falls-through", c.Pos(t.Pos()), "the single-digit escape can continue into the octal rewriting instead of returning")
+				}
+			}
+		case *ssa.Jump:
+			if s := b.Succs[0]; !(s == region || region.Dominates(s)) {
+				okAll = false
+				r.Fail("single-digit:falls-through", c.Pos(t.Pos()), "the single-digit escape can continue into the octal rewriting instead of returning")
+			}
+		}
+	}
+	if !sawError {
+		okAll = false
+		r.Fail("single-digit:no-fallback", c.Pos(region.Instrs[0].Pos()), "no non-fatal error is recorded for a single non-zero digit escape")
+	}
+	if okAll {
+		r.Pass("scanEscape: a single digit escape \\N is passed through for N = 0 and falls back to the backtracking engine for every N ≥ 1, unconditionally")
+	}
+}
+
+
+// checkSpecialClassesFirst: `[]` (matches nothing) and `[^]` (matches any
+// character) are ECMA-262 spellings RE2 reads differently (`[^]…]` is a negated
+// class starting with ']'). scanBracket has to recognise both before it copies
+// any class text: every call that writes to the output in scanBracket is either
+// inside the arm of one of the two prefix tests or dominated by the false edge
+// of both.
+func checkSpecialClassesFirst(c *core.Ctx, prog *core.Prog, r *core.Rule) {
+	fn := prog.Func(pkgRegex, "parser.scanBracket")
+	if fn == nil {
+		r.Undecided("anchor:scanBracket", "-", "ogenregex.(*parser).scanBracket not found")
+		return
+	}
+	type test struct{ yes, no *ssa.BasicBlock }
+	tests := map[string]test{}
+	for _, call := range core.Calls(fn) {
+		cv, ok := call.(*ssa.Call)
+		if !ok || !core.IsCallTo(call.Common(), "strings", "HasPrefix") {
+			continue
+		}
+		k, ok := call.Common().Args[1].(*ssa.Const)
+		if !ok || k.Value == nil {
+			continue
+		}
+		lit := constant.StringVal(k.Value)
+		if lit != "[]" && lit != "[^]" {
+			continue
+		}
+		for _, ref := range *cv.Referrers() {
+			if iff, ok := ref.(*ssa.If); ok {
+				tests[lit] = test{iff.Block().Succs[0], iff.Block().Succs[1]}
+			}
+		}
+	}
+	if len(tests) != 2 {
+		r.Fail("special-classes:tests", c.Pos(fn.Pos()), fmt.Sprintf("scanBracket tests %d of the two special spellings `[]`, `[^]`", len(tests)))
+		return
+	}
+	n, bad := 0, 0
+	for _, call := range core.Calls(fn) {
+		name := core.CalleeName(call.Common())
+		if !strings.Contains(name, "ogenregex.parser).") {
+			continue
+		}
+		switch name[strings.LastIndex(name, ".")+1:] {
+		case "pass", "passString", "write", "writeString", "scanEscape":
+		default:
+			continue
+		}
+		n++
+		b := call.Block()
+		inArm := false
+		after := true
+		for _, t := range tests {
+			if len(t.yes.Preds) == 1 && (t.yes == b || t.yes.Dominates(b)) {
+				inArm = true
+			}
+			if !(len(t.no.Preds) == 1 && (t.no == b || t.no.Dominates(b))) {
+				after = false
+			}
+		}
+		if inArm || after {
+			continue
+		}
+		bad++
+		r.Fail("special-classes:write-before-test", c.Pos(call.Pos()), fmt.Sprintf("scanBracket calls %s on a path that has not ruled out `[]` and `[^]`: `[^]` followed by a later ']' is copied verbatim and RE2 reads it as one negated class", name[strings.LastIndex(name, ".")+1:]))
+	}
+	if bad == 0 {
+		r.Pass(fmt.Sprintf("scanBracket: %d output calls, all after both special-class tests or inside their arms", n))
 	}
 }
